@@ -423,6 +423,7 @@ var tbSets = map[string][]string{
 	"reuseq":   {"b_unread", "b_basic", "b_writeonly", "b_complete", "b_spelling"},
 	"failing":  {"b_kind", "b_fail", "b_nilptr", "b_parenfail", "b_heal"},
 	"memo2":    {"b_grid"},
+	"memo3":    {"b_sharedcomp"},
 	"reusej":   {"j_flag"},
 	"ctl2":     {"b_complete2", "b_complete3"},
 	"actfail2": {"b_actfail2", "b_appendfail"},
